@@ -393,6 +393,14 @@ func (t *Target) GnmiUpdate(n *pb.Notification) error {
 					t.checkTimestamp(T(ts))
 				}
 			}(n.GetTimestamp())
+		} else if ip := joinPrefixAndPath(n.GetPrefix(), u[0].GetPath()); len(p) == 0 && len(ip) > 0 && ip[0] != metadata.Root {
+			// The update path carries no PathElem: deprecated Element encoding,
+			// or all elements are in the prefix. It is target data all the same.
+			defer func(ts int64) {
+				if updateTS {
+					t.checkTimestamp(T(ts))
+				}
+			}(n.GetTimestamp())
 		}
 	}
 	switch {
